@@ -60,11 +60,11 @@ let parse_addr (s : string) : addr =
     A4 (List.map (fun x -> n_of_int (int_of_string x)) (String.split_on_char '.' s))
 
 let listener_of (l : string) : listener =
-  match l with "udp" -> LUdp | "tcp" | "gnet" | "tls" | "quic" -> LTcp | _ -> LHttp
+  match l with "udp" | "udpmr" -> LUdp | "tcp" | "gnet" | "tls" | "quic" -> LTcp | _ -> LHttp
 
 let client_of (l : string) (client : string) : addr =
   match l with
-  | "udp" | "tcp" | "gnet" | "tls" | "quic" -> A4 [n_of_int 127; n_of_int 0; n_of_int 0; n_of_int 1]
+  | "udp" | "udpmr" | "tcp" | "gnet" | "tls" | "quic" -> A4 [n_of_int 127; n_of_int 0; n_of_int 0; n_of_int 1]
   | _ -> parse_addr client      (* the DoH listeners are configured with a client-address header: absent => unknown *)
 
 let verdict_str (v : verdict) : string = match v with
